@@ -33,9 +33,9 @@ def post_merge(counters, extra):
 
 
 def plan(tier, seed):
-    return [{"name": "s%d" % i, "seed": seed, "shard": i, "draws": 2 if tier == "quick" else 25,
-             "trials": 30 if tier == "quick" else 150, "budget_s": 3.0 if tier == "quick" else 30.0,
-             "es_s": 6.0 if tier == "quick" else 60.0} for i in range(NSHARDS)]
+    return [{"name": "s%d" % i, "seed": seed, "shard": i, "draws": 2 if tier == "quick" else 10,
+             "trials": 30 if tier == "quick" else 150, "budget_s": 3.0 if tier == "quick" else 15.0,
+             "es_s": 6.0 if tier == "quick" else 30.0} for i in range(NSHARDS)]
 
 
 def pep_bound(entry, kwargs):
